@@ -19,7 +19,7 @@ var consensusPatterns = []string{"./app/...", "./x/...", "./precompiles/...", ".
 
 func skipFile(fn string) bool {
 	return strings.HasSuffix(fn, "_test.go") || strings.HasSuffix(fn, ".pb.go") || strings.HasSuffix(fn, ".pb.gw.go") ||
-		strings.Contains(fn, "/client/") || strings.Contains(fn, "/simulation/") || strings.Contains(fn, "/testutil/") || strings.Contains(fn, "/testdata/")
+		strings.Contains(fn, "/client/") || strings.Contains(fn, "/simulation/") || strings.Contains(fn, "/testutil/") || strings.Contains(fn, "/testdata/") || strings.Contains(fn, "/mocks/") || strings.Contains(fn, "_mocks")
 }
 
 func factsDeterminism() {
@@ -127,6 +127,37 @@ func factsDeterminism() {
 			}
 		}
 	}
+	// bank-keeper methods called from Haqq's own packages (by the type of the receiver expression)
+	bankMethods := map[string]bool{}
+	for _, p := range pkgs {
+		for _, f := range p.Syntax {
+			fn := strings.TrimPrefix(p.Fset.Position(f.Pos()).Filename, repo+"/")
+			if skipFile("/"+fn) || strings.HasPrefix(fn, "x/bank/") {
+				continue
+			}
+			ast.Inspect(f, func(n ast.Node) bool {
+				se, ok := n.(*ast.SelectorExpr)
+				if !ok {
+					return true
+				}
+				sel := p.TypesInfo.Selections[se]
+				if sel == nil || sel.Kind() != types.MethodVal {
+					return true
+				}
+				rt := sel.Recv().String()
+				if strings.Contains(rt, "BankKeeper") || strings.Contains(rt, "x/bank/keeper") || strings.Contains(rt, "bankkeeper") {
+					bankMethods[se.Sel.Name] = true
+				}
+				return true
+			})
+		}
+	}
+	var bm []string
+	for m := range bankMethods {
+		bm = append(bm, m)
+	}
+	sort.Strings(bm)
+	emitStrs("bankMethodsUsedByHaqq", bm, "every method invoked on a bank keeper (any value whose type is a BankKeeper interface or a keeper of x/bank) from non-test code outside x/bank")
 	for _, l := range []*[][2]string{&ranges, &nows, &gos, &writers} {
 		sort.Slice(*l, func(i, j int) bool { return (*l)[i][0]+(*l)[i][1] < (*l)[j][0]+(*l)[j][1] })
 		*l = dedup(*l)
